@@ -42,3 +42,20 @@ Lemma ex_erase_range :
   (match w_erase_range 7 (w_insert 7 w3 1 7) 0 3 with ErOk m => pairs m | ErThrow => [] end) = [(1, 7)] /\
   (match w_erase_range 7 w3 1 2 with ErOk m => pairs m | ErThrow => [] end) = [(0, 4); (0, 6)].
 Proof. vm_compute. repeat split; reflexivity. Qed.
+
+(* keys with identity: same equivalence class 0 but different key objects (tags 1 / 2) -> not equal, although the
+   (class, value) pairs coincide; equal tags -> equal *)
+Definition kl : mm := step1 7 mm_empty (OAdd 0 1 4).
+Definition kr : mm := step1 7 mm_empty (OAdd 0 2 4).
+Lemma ex_eq_sees_key_identity : w_eq kl kr = false /\ pairs kl = pairs kr /\ w_eq kl kl = true.
+Proof. vm_compute. repeat split; reflexivity. Qed.
+
+(* failures: RemoveKey whose mHashMap.Remove throws is rolled back; Add to a full heap array whose growth allocation
+   fails leaves everything as it was; a failed Shrink is swallowed and keeps the capacity *)
+Definition mf : mm := fst (run 2 [OAdd 1 10 5; OAdd 1 11 6; OAddAt 1 7; OAddAt 1 8; OAdd 2 20 9]).
+Lemma ex_failures :
+  step1f 2 mf (ORemoveKey 1) [true] = (mf, true, []) /\
+  step1f 2 mf (OAdd 1 0 99) [true] = (mf, true, []) /\
+  fst (fst (step1f 2 mf (OAdd 1 0 99) [false])) = step1 2 mf (OAdd 1 0 99) /\
+  remove_back_f (RHeap 16 4) [true] = (RHeap 16 3, []) /\ remove_back_f (RHeap 16 4) [false] = (RHeap 8 3, []).
+Proof. vm_compute. repeat split; reflexivity. Qed.
